@@ -33,6 +33,34 @@ type op struct {
 	f    func(ob Container) string
 }
 
+// keptOps work on a copy that the calling thread keeps (copy-on-write: the
+// copy, the original and the copies of other threads share storage until one
+// of them is modified)
+var keptOps = map[string]func(ob Container, kept *Container) string{
+	"keepcopy":  func(ob Container, kept *Container) string { *kept = ob.Copy(); return "" },
+	"keepslice": func(ob Container, kept *Container) string { *kept = ob.Slice(0); return "" },
+	"keptadd": func(ob Container, kept *Container) string {
+		if *kept == nil {
+			return "nothing kept"
+		}
+		(*kept).Add(IntVal(5))
+		return content(*kept)
+	},
+	"keptread": func(ob Container, kept *Container) string {
+		if *kept == nil {
+			return "nothing kept"
+		}
+		return content(*kept)
+	},
+}
+
+func call(name string, ob Container, kept *Container) string {
+	if f, ok := keptOps[name]; ok {
+		return f(ob, kept)
+	}
+	return opByName(name).f(ob)
+}
+
 const modified = "<modified-during>"
 
 func show(v Value) string {
@@ -157,6 +185,14 @@ type scen struct {
 	record  bool
 	threads [][]string
 	bound   int
+	// prelude: before the threads start the (already concurrent) object is
+	// copied and then modified, i.e. it has been through one copy-on-write
+	prelude bool
+}
+
+func prelude(ob Container) {
+	_ = ob.Copy()
+	ob.Add(IntVal(3))
 }
 
 func fresh(record bool) Container {
@@ -187,14 +223,18 @@ func (x *exec) Main() {
 	case *SuRecord:
 		o.SetConcurrent()
 	}
+	if x.sc.prelude {
+		prelude(x.ob)
+	}
 	x.results = make([][]string, len(x.sc.threads))
 	vsched.NoPreempt(false)
 	for t, names := range x.sc.threads {
 		t, names := t, names
 		vsched.GoNamed(fmt.Sprintf("t%d", t), false, func() {
+			var kept Container
 			for _, n := range names {
-				o := opByName(n)
-				x.results[t] = append(x.results[t], guard(func() string { return o.f(x.ob) }))
+				n := n
+				x.results[t] = append(x.results[t], guard(func() string { return call(n, x.ob, &kept) }))
 			}
 		})
 	}
@@ -257,11 +297,15 @@ func (x *exec) Finish(out vsched.Outcome) (string, *sched.Failure) {
 	var tried []string
 	for _, ord := range orders(lens) {
 		ref := fresh(x.sc.record)
+		if x.sc.prelude {
+			prelude(ref)
+		}
+		keptRef := make([]Container, len(x.sc.threads))
 		ok := true
 		var desc []string
 		for _, ti := range ord {
 			name := x.sc.threads[ti[0]][ti[1]]
-			want := guard(func() string { return opByName(name).f(ref) })
+			want := guard(func() string { return call(name, ref, &keptRef[ti[0]]) })
 			got := x.results[ti[0]][ti[1]]
 			desc = append(desc, name+"="+want)
 			if got != want && !(got == modified && (name == "iter" || name == "pack" || name == "display" || name == "copy+add" || name == "slice+add")) {
@@ -302,6 +346,21 @@ func scenarios(c *lib.Ctx) []*scen {
 				}
 				out = append(out, &scen{name: fmt.Sprintf("%s/%s,%s|%s", kind, pre[0], pre[1], b), record: rec,
 					threads: [][]string{pre, {b}}, bound: lib.Pick(c, 1, 2)})
+			}
+		}
+		// copy-on-write: copies kept by the threads, taken from an object that has
+		// been through a copy-on-write before, then modified / read after the
+		// original or the other copy changed
+		for _, th := range [][][]string{
+			{{"keepcopy", "add9", "keptadd"}, {"keepcopy", "keptread"}},
+			{{"keepcopy", "add9", "keptadd"}, {"keepslice", "keptread"}},
+			{{"keepcopy", "keptadd"}, {"keepcopy", "keptadd"}},
+			{{"keepcopy", "put0x", "keptread"}, {"keepcopy", "keptadd", "getA"}},
+			{{"keepslice", "delall", "keptadd"}, {"keepcopy", "keptread"}},
+		} {
+			for _, pre := range []bool{true, false} {
+				out = append(out, &scen{name: fmt.Sprintf("%s/cow%v/%s|%s", kind, pre, strings.Join(th[0], ","), strings.Join(th[1], ",")),
+					record: rec, threads: th, bound: lib.Pick(c, 2, 3), prelude: pre})
 			}
 		}
 	}
